@@ -99,6 +99,15 @@ type groupConsumer struct {
 	//  - read on metadata updates in findNewAssignments
 	leader atomic.Bool
 
+	// revokedAll is set when a session revokes everything (an eager
+	// session ending, or any member leaving) and cleared when the next
+	// session begins. fetchOffsets runs concurrently with the end of its
+	// session: if the OffsetFetch response arrives after the revoke has
+	// invalidated everything, assigning what was fetched would resume
+	// consuming partitions we just revoked, and the next session would
+	// then load offsets into those still-in-use cursors.
+	revokedAll atomic.Bool
+
 	// Set to true when ending a transaction committing transaction
 	// offsets, and then set to false immediately after before calling
 	// EndTransaction.
@@ -771,7 +780,9 @@ func (g *groupConsumer) revoke(stage revokeStage, lost map[string][]int32, leavi
 
 	if !g.cooperative.Load() || leaving { // stage == revokeThisSession if not cooperative
 		// If we are an eager consumer, we stop fetching all of our
-		// current partitions as we will be revoking them.
+		// current partitions as we will be revoking them. A concurrent
+		// fetchOffsets must not assign anything after this point.
+		g.revokedAll.Store(true)
 		g.c.mu.Lock()
 		if leaving {
 			g.c.assignPartitions(nil, assignInvalidateAll, nil, "revoking all assignments because we are leaving the group")
@@ -1103,6 +1114,7 @@ func (g *groupConsumer) setupAssignedAndHeartbeat(initialHb time.Duration, hbfn 
 	hbErrCh := make(chan hbquit, 1)
 	fetchErrCh := make(chan error, 1)
 
+	g.revokedAll.Store(false)
 	s := newAssignRevokeSession()
 	added, lost := g.diffAssigned()
 	g.lastAssigned = g.nowAssigned.clone() // now that we are done with our last assignment, update it per the new assignment
@@ -2379,6 +2391,14 @@ start:
 	defer g.c.mu.Unlock()
 	g.mu.Lock()
 	defer g.mu.Unlock()
+
+	// Our session may have ended while we were fetching: revoke sets
+	// revokedAll before it takes c.mu to invalidate everything, so if we
+	// see it here, what we fetched is no longer ours to consume.
+	if g.revokedAll.Load() {
+		g.cfg.logger.Log(LogLevelInfo, "fetch offsets finished after everything was revoked, not assigning", "group", g.cfg.group)
+		return nil
+	}
 
 	// Eager: we already invalidated everything; nothing to re-invalidate.
 	// Cooperative: assign without invalidating what we are consuming.
